@@ -9,12 +9,18 @@ def run(tier, seed):
     else: plan = [(n, [1, 2, 3], 1, 1) for n in ('etf', 'lalr', 'mutual', 'rrece', 'pal', 'er2', 'er4', 'eqeq', 'abcd', 'num')]
     outside = ['the compilers\' constant evaluators are not code in /repo and cannot be encoded: the solver decides UB-freedom of the whole parse path for every input <= LEN, which by [expr.const] implies the '
                'compile-time parse is a valid constant expression with the same (deterministic) result', 'evaluator step/depth limits; MSVC',
-               'string_buffer / string_view_buffer / user buffers use std::vector-backed stacks: the heap model is out of reach (a 2-byte query exhausted 20 GB in the SAT solver), so buffer independence is not claimed',
+               'string_buffer / string_view_buffer use std::vector-backed stacks: the heap model is out of reach (a 2-byte query exhausted 20 GB in the SAT solver); buffer independence is claimed for cstring_buffer vs a user buffer that is a slice of larger storage (fixed-size stacks)',
                'constexpr-constructed vs run-time-constructed parser object (executing the constructor inside CBMC is out of reach, DESIGN 2.2)']
     assume = ['(a) solver: no undefined behaviour on the cstring_buffer parse path for any byte string of the stated length (accepted, syntactically wrong and lexically wrong alike)',
               '(b) concrete confirmation on solver-chosen inputs of each class: g++ and clang++ must accept the constexpr parse and its result must equal the run-time result']
     for n, Ls, ws, nl in plan:
         cp.run_parse_property('C07', tier, seed, [(d[n], Ls)], ['accept'], '', outside, assume, ws=ws, nl=nl, validate_cf=False, wit_every=1000, finish=False, R=R, defer=cases, mode='safety', tag='c')
+    # (c) buffer kind: the same text in a user buffer that is a slice of larger storage (what lies behind end() is solver-chosen, not NUL): result, messages and positions
+    #     must equal the reference, and nothing at or beyond end() may be read
+    usel = [(d['etf'], [2]), (d['kwid'], [2])] if tier == 'quick' else [(d[n], [1, 2, 3]) for n in ('etf', 'lalr', 'er1', 'kwid', 'eqeq', 'num')]
+    ucases = []
+    cp.run_parse_property('C07', tier, seed, usel, ['accept', 'value', 'messages', 'positions', 'inbuf'], '', [], ['(c) user buffer = slice of larger storage with fixed-size stacks (stack-type traits specialised in the harness like cstring_buffer\'s)'],
+                          ws=1, nl=1, validate_cf=False, wit_every=2, finish=False, R=R, defer=ucases, variant='slice', tag='u')
     # three witness classes per case: accepted / syntax error / lexical error
     classes = [('acc', 'OUT[O_OK] == 1 && R.ok'), ('syn', '!R.ok && R.nmsg == 1 && R.msg[0].kind == M_SYNTAX_ERROR && OUT[O_NMSG] == 1'), ('lex', '!R.ok && R.nmsg == 1 && R.msg[0].kind == M_UNEXPECTED_CHAR && OUT[O_NMSG] == 1')]
     vlib.build_units([c.unit for c in cases])
@@ -52,7 +58,7 @@ def run(tier, seed):
             if ct_ok != bool(rt_ok):
                 R.violation('compile-time (%s) and run-time results differ on input %s (unit %s): constexpr has_value=%s, run time has_value=%s' % (cc, vlib.hexs(inp), c.g.name, ct_ok, rt_ok), robj)
     R.extra['constexpr_probes_compiled'] = nprobe
-    return cp.run_deferred(R, tier, cases,
+    return cp.run_deferred(R, tier, cases + ucases,
         'one safety-mode query per (unit, exact input length): every byte string is decided free of undefined behaviour on the cstring_buffer parse path; plus, per unit, three solver-chosen inputs '
         '(accepted, syntactically wrong, lexically wrong) whose constexpr parse must be accepted by g++ and clang++ with the run-time result',
         timeout=1500 if tier == 'quick' else 3600, mem_gb=16 if tier == 'quick' else 30)
